@@ -89,6 +89,18 @@ def step (line : String) : String :=
       match m, decStr t, decInt w, decStr ex, decStr em, decNat ic with
       | some m, some t, some w, some ex, some em, some ic => encStr (fillText pySplit t m w ex em ic)
       | _, _, _, _, _, _ => bad
+  | ["sentEnd", w, fl] =>
+      -- fl: per character of w one digit 0..7 = letter*1 + lower*2 + word*4
+      match decStr w with
+      | some w =>
+          let ds := fl.toList.map (fun c => c.toNat - '0'.toNat)
+          if ds.length != w.length then bad else
+          let tbl := w.zip ds
+          let look (c : Char) : Nat := match tbl.find? (·.1 == c) with | some (_, d) => d | none => 0
+          let cls : CharCls := { letter := fun c => look c % 2 == 1, lower := fun c => (look c / 2) % 2 == 1,
+                                 word := fun c => (look c / 4) % 2 == 1 }
+          encBool (isSentenceEnd cls w)
+      | none => bad
   | _ => bad
 
 partial def loop (hin hout : IO.FS.Stream) : IO Unit := do
